@@ -905,3 +905,376 @@ Proof.
       * now apply outputs_all.
       * now rewrite Hn, Hs.
 Qed.
+
+(* ================================================================================================
+   Part 8 — the SIGHASH_SINGLE constant *)
+Lemma single_bug_presig t script idx ht :
+  N.land ht 31 = SIGHASH_SINGLE -> (length (tx_outs t) <= idx)%nat ->
+  legacy_presig t script idx ht = Ret (PConst (2 ^ 248)).
+Proof.
+  intros Hs Hi. unfold legacy_presig. rewrite delete_subscript_dws. cbn [bind].
+  destruct g_legacy_masks as [-> ->]. rewrite g_none, g_single, g_single_value, Hs.
+  change (SIGHASH_SINGLE =? SIGHASH_NONE) with false. rewrite N.eqb_refl. cbv zeta iota.
+  replace (nth_error (tx_outs t) idx) with (@None txout) by (symmetry; now apply nth_error_None).
+  reflexivity.
+Qed.
+
+Lemma one_is_2_248 : be_decode uint256_one = 2 ^ 248 /\ be_encode 32 (2 ^ 248) = uint256_one.
+Proof. split; vm_compute; reflexivity. Qed.
+
+(* ================================================================================================
+   Part 9 — BIP143 *)
+Lemma slice_one {A} (l : list A) i x : nth_error l i = Some x -> slice i (i + 1) l = [x].
+Proof.
+  unfold slice. replace (i + 1 - i)%nat with 1%nat by lia.
+  revert l; induction i as [|i IH]; intros [|y l] H; try discriminate.
+  - injection H as ->. reflexivity.
+  - cbn [skipn]. now apply IH.
+Qed.
+
+Section Bip143Proof.
+Variable H : bytes -> bytes.
+Variables (t : tx) (script : bytes) (idx : nat) (ht : N) (u : txout).
+Hypothesis Hwf : tx_wf t.
+Hypothesis Hidx : (idx < length (tx_ins t))%nat.
+Hypothesis Hht : ht < 2 ^ 32.
+Hypothesis Hscr : N.of_nat (length script) < 2 ^ 64.
+Hypothesis Hun : nth_error (tx_unspents t) idx = Some (Some u).
+Hypothesis Hamount : to_value u < 2 ^ 64.
+
+Lemma hash_prevouts_eq : hash_prevouts H t ht = Ret (hashPrevouts H (to_core t) ht).
+Proof.
+  unfold hash_prevouts, hashPrevouts. rewrite g_acp, g_zero32. fold (f_anyonecanpay ht).
+  destruct (f_anyonecanpay ht); [reflexivity|]. cbn [negb].
+  rewrite (stream_all_pure _ (fun i => ti_hash i ++ le32 (ti_index i))).
+  - cbn [bind]. unfold to_core. cbn [ctx_vin]. now rewrite flat_map_map.
+  - destruct Hwf as (_ & _ & Hins & _). eapply Forall_impl; [|exact Hins].
+    intros i (_ & Hi & _). now rewrite write_le4.
+Qed.
+
+Lemma hash_sequence_eq : hash_sequence H 31 31 t ht = Ret (hashSequence H (to_core t) ht).
+Proof.
+  unfold hash_sequence, hashSequence. rewrite g_acp, g_zero32, g_single, g_none.
+  fold (f_anyonecanpay ht) (f_single ht) (f_none ht).
+  destruct (f_anyonecanpay ht), (f_single ht), (f_none ht); try reflexivity. cbn [negb orb andb].
+  rewrite (stream_all_pure _ (fun i => le32 (ti_seq i))).
+  - cbn [bind]. unfold to_core. cbn [ctx_vin]. now rewrite flat_map_map.
+  - destruct Hwf as (_ & _ & Hins & _). eapply Forall_impl; [|exact Hins].
+    intros i (_ & _ & Hq). now rewrite write_le4.
+Qed.
+
+Lemma hash_outputs_eq : hash_outputs H 31 31 t ht idx = Ret (hashOutputs H (to_core t) idx ht).
+Proof.
+  unfold hash_outputs, hashOutputs. rewrite g_zero32, g_single, g_none.
+  fold (f_single ht) (f_none ht).
+  assert (Eout : length (ctx_vout (to_core t)) = length (tx_outs t)) by (unfold to_core; cbn [ctx_vout]; apply map_length).
+  rewrite Eout.
+  destruct (f_single ht) eqn:Hs.
+  - cbn [negb andb]. destruct (length (tx_outs t) <=? idx)%nat eqn:E.
+    + replace (idx <? length (tx_outs t))%nat with false by lia. reflexivity.
+    + replace (idx <? length (tx_outs t))%nat with true by lia.
+      destruct (nth_error (tx_outs t) idx) as [o|] eqn:Eo; [|apply nth_error_None in Eo; lia].
+      rewrite (slice_one _ _ _ Eo). cbn [stream_all].
+      destruct Hwf as (_ & _ & _ & Hos & _).
+      rewrite stream_txout_ser by exact (proj1 (Forall_forall _ _) Hos o (nth_error_In _ _ Eo)).
+      cbn [bind]. rewrite app_nil_r. unfold to_core. cbn [ctx_vout].
+      now rewrite (nth_map_some to_core_out _ idx o) by exact Eo.
+  - cbn [negb andb]. destruct (f_none ht); [reflexivity|]. cbn [negb].
+    rewrite (stream_all_pure _ _ _ (outs_wf_forall t Hwf)). cbn [bind].
+    unfold to_core. cbn [ctx_vout]. now rewrite flat_map_map.
+Qed.
+
+Lemma segwit_preimage_eq :
+  segwit_signature_preimage H 31 31 31 31 t script idx ht
+  = Ret (bip143_preimage H script (to_core t) idx (to_value u) ht).
+Proof.
+  pose proof Hwf as (Hv & Hl & Hins & _).
+  destruct (nth_error (tx_ins t) idx) as [x|] eqn:Ex; [|apply nth_error_None in Ex; lia].
+  pose proof (proj1 (Forall_forall _ _) Hins x (nth_error_In _ _ Ex)) as (_ & Hxi & Hxq).
+  unfold segwit_signature_preimage, bip143_preimage.
+  rewrite write_le4 by exact Hv. cbn [bind].
+  rewrite hash_prevouts_eq. cbn [bind]. rewrite hash_sequence_eq. cbn [bind].
+  rewrite Ex. cbn [bind]. rewrite write_le4 by exact Hxi. cbn [bind].
+  rewrite Hun. cbn [bind]. rewrite stream_varstr_ser by exact Hscr. cbn [bind].
+  rewrite write_le8 by exact Hamount. cbn [bind]. rewrite write_le4 by exact Hxq. cbn [bind].
+  rewrite hash_outputs_eq. cbn [bind]. rewrite write_le4 by exact Hl. rewrite write_le4 by exact Hht. cbn [bind].
+  assert (En : nth idx (ctx_vin (to_core t)) null_txin = to_core_in x).
+  { unfold to_core. cbn [ctx_vin]. now apply nth_map_some. }
+  rewrite En.
+  unfold to_core_in, ser_outpoint. cbn [in_prevout op_hash op_n in_nSequence ctx_nVersion ctx_nLockTime to_core].
+  repeat rewrite <- app_assoc. reflexivity.
+Qed.
+End Bip143Proof.
+
+(* ================================================================================================
+   Part 10 — the five transaction classes *)
+Definition core_digest (H : bytes -> bytes) (c : core_sighash) : bytes :=
+  match c with CoreOne => uint256_one | CorePreimage p => H p end.
+
+Lemma land_pow2 x k : N.land x (2 ^ k) = if N.testbit x k then 2 ^ k else 0.
+Proof.
+  apply N.bits_inj; intro n. rewrite N.land_spec, N.pow2_bits_eqb.
+  destruct (N.testbit x k) eqn:E.
+  - rewrite N.pow2_bits_eqb. destruct (N.eqb_spec k n) as [<-|]; [now rewrite E|now rewrite andb_false_r].
+  - rewrite N.bits_0. destruct (N.eqb_spec k n) as [<-|]; [now rewrite E|now rewrite andb_false_r].
+Qed.
+
+Lemma forkid_missing_spec ht : forkid_missing ht = (N.land ht SIGHASH_FORKID =? 0).
+Proof.
+  unfold forkid_missing. rewrite g_forkid. unfold SIGHASH_FORKID. change 64 with (2 ^ 6).
+  rewrite land_pow2. destruct (N.testbit ht 6); reflexivity.
+Qed.
+
+Lemma lor_lt_2_32 a b : a < 2 ^ 32 -> b < 2 ^ 32 -> N.lor a b < 2 ^ 32.
+Proof.
+  intros Ha Hb. destruct (N.eq_dec (N.lor a b) 0) as [->|Hne]; [reflexivity|].
+  apply N.log2_lt_pow2; [lia|]. rewrite N.log2_lor. apply N.max_lub_lt.
+  - destruct (N.eq_dec a 0) as [->|]; [reflexivity|]. apply N.log2_lt_pow2; lia.
+  - destruct (N.eq_dec b 0) as [->|]; [reflexivity|]. apply N.log2_lt_pow2; lia.
+Qed.
+
+Section CoinsProof.
+Variables sha dsha : bytes -> bytes.
+Variables (t : tx) (script : bytes) (idx : nat) (ht : N).
+Hypothesis Hwf : tx_wf t.
+Hypothesis Hidx : (idx < length (tx_ins t))%nat.
+Hypothesis Hht : ht < 2 ^ 32.
+Hypothesis Hscr : N.of_nat (length script) < 2 ^ 64.
+
+Lemma legacy_digest_btc c : c = BTC \/ c = LTC -> core_decodable script = true ->
+  signature_hash sha dsha c t script idx ht
+  = Ret (be_decode (core_digest dsha (core_signature_hash_legacy script (to_core t) idx ht))).
+Proof.
+  intros Hc Hdec. assert (E : signature_hash sha dsha c t script idx ht = signature_hash sha dsha BTC t script idx ht)
+    by (destruct Hc as [-> | ->]; reflexivity).
+  rewrite E. unfold signature_hash. rewrite legacy_presig_eq by assumption. cbn [bind].
+  destruct (core_signature_hash_legacy script (to_core t) idx ht); cbn [presig_of_core core_digest].
+  - now rewrite (proj1 one_is_2_248).
+  - reflexivity.
+Qed.
+
+Lemma legacy_digest_grs : core_decodable script = true ->
+  signature_hash sha dsha GRS t script idx ht
+  = Ret (be_decode (core_digest sha (core_signature_hash_legacy script (to_core t) idx ht))).
+Proof.
+  intros Hdec. unfold signature_hash. rewrite legacy_presig_eq by assumption. cbn [bind].
+  destruct (core_signature_hash_legacy script (to_core t) idx ht); cbn [presig_of_core core_digest].
+  - now rewrite (proj1 one_is_2_248).
+  - reflexivity.
+Qed.
+
+Variable u : txout.
+Hypothesis Hun : nth_error (tx_unspents t) idx = Some (Some u).
+Hypothesis Hamount : to_value u < 2 ^ 64.
+
+Lemma btc_preimage_eq h : h < 2 ^ 32 ->
+  btc_segwit_preimage dsha t script idx h = Ret (bip143_preimage dsha script (to_core t) idx (to_value u) h).
+Proof.
+  intros Hh. unfold btc_segwit_preimage. destruct g_sw_masks as (E1 & E2 & E3 & E4). rewrite E1, E2, E3, E4.
+  now apply segwit_preimage_eq.
+Qed.
+
+Lemma grs_preimage_eq :
+  grs_segwit_preimage sha t script idx ht = Ret (bip143_preimage sha script (to_core t) idx (to_value u) ht).
+Proof.
+  unfold grs_segwit_preimage. destruct g_grs_masks as (E1 & E2 & E3 & E4). rewrite E1, E2, E3, E4.
+  now apply segwit_preimage_eq.
+Qed.
+
+Lemma segwit_digest_btc c : c = BTC \/ c = LTC \/ c = BCH ->
+  signature_for_hash_type_segwit sha dsha c t script idx ht
+  = Ret (be_decode (dsha (bip143_preimage dsha script (to_core t) idx (to_value u) ht))).
+Proof.
+  intros Hc.
+  assert (E : signature_for_hash_type_segwit sha dsha c t script idx ht
+              = signature_for_hash_type_segwit sha dsha BTC t script idx ht)
+    by (destruct Hc as [-> | [-> | ->]]; reflexivity).
+  rewrite E. unfold signature_for_hash_type_segwit. now rewrite btc_preimage_eq.
+Qed.
+
+Lemma segwit_digest_grs :
+  signature_for_hash_type_segwit sha dsha GRS t script idx ht
+  = Ret (be_decode (sha (bip143_preimage sha script (to_core t) idx (to_value u) ht))).
+Proof. unfold signature_for_hash_type_segwit. now rewrite grs_preimage_eq. Qed.
+
+Definition forkid_result (p : option bytes) : outcome N :=
+  match p with None => Raise E_SCRIPT | Some p => Ret (be_decode (dsha p)) end.
+
+Lemma forkid_bch :
+  signature_hash sha dsha BCH t script idx ht
+  = forkid_result (forkid_preimage dsha FORKID_BCH script (to_core t) idx (to_value u) ht).
+Proof.
+  unfold signature_hash, forkid_preimage. rewrite forkid_missing_spec.
+  destruct (N.land ht SIGHASH_FORKID =? 0); [reflexivity|].
+  rewrite (segwit_digest_btc BCH) by auto. cbn [forkid_result].
+  change (N.shiftl FORKID_BCH 8) with 0. now rewrite N.lor_0_r.
+Qed.
+
+Lemma forkid_btg_segwit :
+  signature_for_hash_type_segwit sha dsha BTG t script idx ht
+  = forkid_result (forkid_preimage dsha FORKID_BTG script (to_core t) idx (to_value u) ht).
+Proof.
+  unfold signature_for_hash_type_segwit, forkid_preimage. rewrite forkid_missing_spec.
+  destruct (N.land ht SIGHASH_FORKID =? 0); [reflexivity|].
+  rewrite g_forkid_btg. rewrite btc_preimage_eq; [reflexivity|].
+  apply lor_lt_2_32; [exact Hht|vm_compute; reflexivity].
+Qed.
+
+Lemma forkid_btg_legacy :
+  signature_hash sha dsha BTG t script idx ht
+  = forkid_result (forkid_preimage dsha FORKID_BTG script (to_core t) idx (to_value u) ht).
+Proof.
+  unfold signature_hash. rewrite forkid_missing_spec.
+  destruct (N.land ht SIGHASH_FORKID =? 0) eqn:E.
+  - unfold forkid_preimage. now rewrite E.
+  - apply forkid_btg_segwit.
+Qed.
+End CoinsProof.
+
+(* refusals need no hypothesis at all *)
+Lemma forkid_refusals sha dsha t script idx ht : N.land ht SIGHASH_FORKID = 0 ->
+  signature_hash sha dsha BCH t script idx ht = Raise E_SCRIPT
+  /\ signature_hash sha dsha BTG t script idx ht = Raise E_SCRIPT
+  /\ signature_for_hash_type_segwit sha dsha BTG t script idx ht = Raise E_SCRIPT.
+Proof.
+  intros H. unfold signature_hash, signature_for_hash_type_segwit. rewrite forkid_missing_spec, H.
+  repeat split; reflexivity.
+Qed.
+
+(* ================================================================================================
+   Part 11 — several signatures (CHECKMULTISIG): FindAndDelete keeps a script decodable *)
+Lemma instr_complete s o len : core_get_op s = GOk o len -> core_get_op (firstn len s) = GOk o len.
+Proof.
+  unfold core_get_op. destruct s as [|b r]; [discriminate|].
+  unfold OP_PUSHDATA4, OP_PUSHDATA1, OP_PUSHDATA2.
+  destruct (b2n b <=? 78) eqn:E78.
+  - set (w := if b2n b <? 76 then 0%nat else if b2n b =? 76 then 1%nat else if b2n b =? 77 then 2%nat else 4%nat).
+    destruct (length r <? w)%nat eqn:E1; [discriminate|].
+    set (nSize := if b2n b <? 76 then b2n b else le_decode (firstn w r)).
+    destruct (N.of_nat (length r - w) <? nSize) eqn:E2; [discriminate|].
+    intros Hr; injection Hr as <- <-.
+    change (1 + w + N.to_nat nSize)%nat with (S (w + N.to_nat nSize)). cbn [firstn].
+    rewrite E78. fold w. rewrite firstn_length.
+    replace (Nat.min (w + N.to_nat nSize) (length r) <? w)%nat with false by lia.
+    rewrite firstn_firstn. replace (Nat.min w (w + N.to_nat nSize)) with w by lia. fold nSize.
+    replace (N.of_nat (Nat.min (w + N.to_nat nSize) (length r) - w) <? nSize) with false by lia.
+    reflexivity.
+  - intros Hr; injection Hr as <- <-. cbn [firstn]. now rewrite E78.
+Qed.
+
+Lemma decodable_fuel_irrel : forall f1 f2 s, (length s <= f1)%nat -> (length s <= f2)%nat ->
+  decodable_fuel f1 s = decodable_fuel f2 s.
+Proof.
+  induction f1 as [|f1 IH]; intros f2 s H1 H2.
+  - destruct s; [|cbn in H1; lia]. destruct f2; reflexivity.
+  - destruct s as [|b r]; [destruct f2; reflexivity|].
+    destruct f2 as [|f2]; [cbn in H2; lia|]. cbn [decodable_fuel].
+    destruct (core_get_op (b :: r)) as [o len|] eqn:E; [|reflexivity].
+    apply core_get_op_ok in E. apply IH; rewrite skipn_length; cbn [length] in *; lia.
+Qed.
+
+Lemma decodable_step s o len : core_get_op s = GOk o len -> core_decodable s = core_decodable (skipn len s).
+Proof.
+  intros Hop. pose proof (core_get_op_ok _ _ _ Hop) as [Hl [b [r [-> _]]]].
+  unfold core_decodable. cbn [length decodable_fuel]. rewrite Hop.
+  apply decodable_fuel_irrel. all: rewrite ?skipn_length; cbn [length] in *. all: lia.
+Qed.
+
+Lemma decodable_cons_instr s o len X : core_get_op s = GOk o len -> core_decodable X = true ->
+  core_decodable (firstn len s ++ X) = true.
+Proof.
+  intros Hop HX. pose proof (core_get_op_ok _ _ _ Hop) as [Hl _].
+  pose proof (instr_complete _ _ _ Hop) as Hc.
+  assert (Hlen : length (firstn len s) = len) by (rewrite firstn_length; lia).
+  rewrite <- Hlen in Hc at 2.
+  pose proof (core_get_op_prefix _ X _ Hc) as Hp. rewrite Hlen in Hp.
+  rewrite (decodable_step _ _ _ Hp). rewrite <- Hlen at 1. now rewrite skipn_app_exact.
+Qed.
+
+Lemma fad_preserves_decodable pat : complete_instruction pat -> forall fuel s, (length s <= fuel)%nat ->
+  decodable_fuel fuel s = true -> core_decodable (fad_fuel fuel pat s) = true.
+Proof.
+  intros [po Hpat] fuel. induction fuel as [|f IH]; intros s Hlen Hd.
+  - destruct s; [reflexivity|cbn in Hlen; lia].
+  - cbn [fad_fuel]. destruct s as [|b r].
+    + destruct pat as [|p0 pr]; [discriminate|]. reflexivity.
+    + cbn [decodable_fuel] in Hd. destruct (is_prefix pat (b :: r)) eqn:EP.
+      * pose proof (is_prefix_inv _ _ EP) as Hs.
+        assert (Hop : core_get_op (b :: r) = GOk po (length pat)) by (rewrite Hs; now apply core_get_op_prefix).
+        rewrite Hop in Hd. apply core_get_op_ok in Hop.
+        apply IH; [rewrite skipn_length; cbn [length] in *; lia|exact Hd].
+      * destruct (core_get_op (b :: r)) as [o len|] eqn:Hop; [|discriminate].
+        pose proof (core_get_op_ok _ _ _ Hop) as [Hl _].
+        eapply decodable_cons_instr; [exact Hop|].
+        apply IH; [rewrite skipn_length; cbn [length] in *; lia|exact Hd].
+Qed.
+
+Lemma find_and_delete_keeps_decodable pat s : complete_instruction pat -> core_decodable s = true ->
+  core_decodable (core_find_and_delete pat s) = true.
+Proof.
+  intros Hc Hd. unfold core_find_and_delete. destruct pat; [exact Hd|].
+  now apply fad_preserves_decodable.
+Qed.
+
+Lemma delete_signatures_decodable sigs : forall script,
+  Forall (fun sg => N.of_nat (length sg) < 2 ^ 32 /\ sig_pattern_excluded sg = false) sigs ->
+  core_decodable script = true ->
+  delete_signatures script sigs = Ret (core_script_code_base script sigs).
+Proof.
+  induction sigs as [|sg sigs IH]; intros script Hall Hd; [reflexivity|].
+  inversion Hall as [|? ? [Hl He] Hrest]; subst.
+  cbn [delete_signatures]. unfold core_script_code_base. cbn [fold_left].
+  rewrite delete_signature_decodable by assumption. cbn [bind].
+  apply IH; [exact Hrest|]. apply find_and_delete_keeps_decodable; [now apply core_push_complete|exact Hd].
+Qed.
+
+(* ================================================================================================
+   Part 12 — the unrestricted statements, and the witnesses that refute them on the current code *)
+Definition find_and_delete_statement : Prop :=
+  forall script pat, complete_instruction pat ->
+  delete_subscript script pat = Ret (core_find_and_delete pat script).
+Definition delete_signature_statement : Prop :=
+  forall script sig, N.of_nat (length sig) < 2 ^ 32 -> core_decodable script = true ->
+  delete_signature script sig = Ret (core_find_and_delete (core_push sig) script).
+Definition legacy_statement : Prop :=
+  forall t script idx ht,
+  tx_wf t -> (idx < length (tx_ins t))%nat -> ht < 2 ^ 32 -> N.of_nat (length script) < 2 ^ 64 ->
+  legacy_presig t script idx ht = Ret (presig_of_core (core_signature_hash_legacy script (to_core t) idx ht)).
+
+(* CHECKSIG  <push of 5 bytes, only 1 present: 00>  CODESEPARATOR *)
+Definition witness_script : bytes := [xac; x05; x00; xab].
+Definition witness_tx : tx :=
+  mk_tx 1 [mk_txin (repeatb x11 32) 0 [] 4294967295] [mk_txout 1 [x51]] 0 [Some (mk_txout 2 [x51])].
+
+Lemma witness_tx_wf : tx_wf witness_tx.
+Proof.
+  unfold tx_wf, witness_tx. cbn [tx_version tx_lock tx_ins tx_outs]. repeat split; try (vm_compute; reflexivity).
+  - repeat constructor; vm_compute; reflexivity.
+  - repeat constructor; vm_compute; reflexivity.
+Qed.
+
+Lemma find_and_delete_refuted : ~ find_and_delete_statement.
+Proof.
+  intros H. specialize (H witness_script [xab] codesep_complete). vm_compute in H. discriminate.
+Qed.
+
+Lemma delete_signature_refuted : ~ delete_signature_statement.
+Proof.
+  intros H. specialize (H [x55; x01; x05; x55] [x05]).
+  assert (A : N.of_nat (length [x05]) < 2 ^ 32) by (vm_compute; reflexivity).
+  specialize (H A eq_refl). vm_compute in H. discriminate.
+Qed.
+
+Lemma legacy_refuted : ~ legacy_statement.
+Proof.
+  intros H. specialize (H witness_tx witness_script 0%nat 1 witness_tx_wf).
+  assert (A : (0 < length (tx_ins witness_tx))%nat) by (cbn; lia).
+  assert (B : 1 < 2 ^ 32) by (vm_compute; reflexivity).
+  assert (C : N.of_nat (length witness_script) < 2 ^ 64) by (vm_compute; reflexivity).
+  specialize (H A B C). vm_compute in H. discriminate.
+Qed.
+
+(* non-vacuity of the restricted theorems: a decodable script with two separators and an embedded signature push *)
+Definition example_script : bytes := [xab; x02; x30; x01; xac; xab; x51].
+Lemma example_decodable : core_decodable example_script = true.
+Proof. vm_compute. reflexivity. Qed.
